@@ -42,6 +42,7 @@ def check_case(case, ctx):
         return
     p, rx = built
     texts = pat.subject_texts(case['tree'], case['tseed'], case.get('xt', ()), big=case.get('big', 0))
+    texts.sort(key=len, reverse=True)      # index 0 is the longest text (the big one when there is one): asked for most often
     model_compiled = False
     attr = '_Pregex__compiled'
     has_attr = hasattr(p, attr)
@@ -123,13 +124,13 @@ def strategy(spec, ctx):
         st.just(['compile']), st.booleans().map(lambda b: ['gcp', b]), st.just(['purge']),
         st.tuples(st.sampled_from(MATCH_OPS), st.integers(0, 11)).map(list),
         st.tuples(st.sampled_from(MATCH_OPS), st.integers(0, 11)).map(list),
-        st.tuples(st.sampled_from(MATCH_OPS), st.integers(0, 11)).map(list),
+        st.tuples(st.sampled_from(MATCH_OPS), st.sampled_from([0, 0, 0, 1])).map(list),      # the same (longest) texts again and again
     )
     feats = dsl.swarm_features(ctx.seed, ctx.shard_index)
     return st.fixed_dictionaries({
         'tree': dsl.tree_strategy(feats, max_leaves=5),
         'tseed': st.integers(0, 2 ** 16),
-        'big': st.sampled_from([0, 0, 0, 0, 0, 70, 300, 3000]),
+        'big': st.sampled_from([0, 0, 0, 0, 70, 900, 3000]),
         'ops': st.one_of(st.lists(op, min_size=4, max_size=30), st.lists(op, min_size=4, max_size=30), st.lists(op, min_size=30, max_size=80)),
         'xt': st.lists(st.text(st.sampled_from(list('ab \n\n.1-_Aé')), max_size=12), max_size=2),
     })
